@@ -303,6 +303,78 @@ func checkAdapterContract(r *core.Run, a *analysis, f *fn, tn *types.TypeName, r
 			retErrNoProgress = true
 		}
 	}
+	// no path returns a nil error after the source's Read without the error of that Read having been stored
+	// into a field first (a fast path such as `if n == len(p) { return n, nil }` forgets an error that came
+	// with the data; the next call may see a plain EOF and the failure is never reported)
+	forgets := token.NoPos
+	if loop != nil {
+		var readPos token.Pos
+		var errObj2 types.Object
+		type hold struct {
+			pos   token.Pos
+			block ast.Node
+		}
+		var holds []hold
+		var stack []ast.Node
+		ast.Inspect(loop.Body, func(nd ast.Node) bool {
+			if nd == nil {
+				stack = stack[:len(stack)-1]
+				return true
+			}
+			stack = append(stack, nd)
+			switch s := nd.(type) {
+			case *ast.FuncLit:
+				stack = stack[:len(stack)-1]
+				return false
+			case *ast.AssignStmt:
+				if len(s.Lhs) == 2 && len(s.Rhs) == 1 && readPos == token.NoPos {
+					if c, ok := s.Rhs[0].(*ast.CallExpr); ok {
+						if cal := callee(info, c); cal != nil && cal.Name() == "Read" {
+							readPos, errObj2 = s.End(), objOf(info, s.Lhs[1])
+						}
+					}
+				}
+				if len(s.Lhs) == 1 && len(s.Rhs) == 1 && errObj2 != nil && fieldOf(info, s.Lhs[0]) != nil && objOf(info, s.Rhs[0]) == errObj2 {
+					var blk ast.Node
+					for i := len(stack) - 2; i >= 0; i-- {
+						if _, ok := stack[i].(*ast.BlockStmt); ok {
+							blk = stack[i]
+							break
+						}
+						if _, ok := stack[i].(*ast.CaseClause); ok {
+							blk = stack[i]
+							break
+						}
+					}
+					holds = append(holds, hold{s.Pos(), blk})
+				}
+			case *ast.ReturnStmt:
+				if readPos == token.NoPos || s.Pos() < readPos || len(s.Results) != 2 || !isNilExpr(info, s.Results[1]) {
+					return true
+				}
+				held := false
+				for _, h := range holds {
+					if h.pos > s.Pos() {
+						continue
+					}
+					for _, anc := range stack {
+						if anc == h.block {
+							held = true
+						}
+					}
+				}
+				if !held && forgets == token.NoPos {
+					forgets = s.Pos()
+				}
+			}
+			return true
+		})
+	}
+	at := f.Decl.Pos()
+	if forgets != token.NoPos {
+		at = forgets
+	}
+	r.Check(rule, name+"|no success return forgets the error of the same Read", at, loop != nil && forgets == token.NoPos, "after the source's Read a `return n, nil` is reached without the error of that Read having been stored in the adapter: an error delivered together with data is lost and the failure is never reported")
 	r.Check(rule, name+"|held error is sticky", f.Decl.Pos(), stickyFirst, "the adapter must first return an error held back from the previous call")
 	r.Check(rule, name+"|bounded retry of empty reads", f.Decl.Pos(), loop != nil && bounded && retErrNoProgress, "a (0, nil) read must be retried a bounded number of times and then reported as io.ErrNoProgress (neither spin forever nor be treated as data or EOF)")
 	r.Check(rule, name+"|data before error", f.Decl.Pos(), dataFirst && errSecond, "when Read returns n > 0 together with an error the adapter must deliver the n bytes with a nil error and hold the error for the next call (and test n > 0 before err != nil)")
